@@ -420,7 +420,8 @@ def _rand_operand(rng, op):
     if r < 0.92:
         cand = [s for s in BAD_DATA if s["form"] in ("list", "tuple") or (op == "add" and s["form"].startswith("ndarray"))]
         if rng.random() < 0.3:
-            cand = [s for s in _wide_specs(rng, 1) if s["form"] in ("list", "tuple") or op == "add"]
+            wide = [s for s in _wide_specs(rng, 1) if s["form"] in ("list", "tuple") or op == "add"]
+            cand = wide or cand                      # a single wide spec of array form is not usable on the left of `+`
         return rng.choice(cand), None, "err"
     t = rng.choice(TEXTS)
     return {"form": "text", "text": t}, None, "any"
